@@ -228,6 +228,36 @@ func (s *Sim) RunQueryScript(b *WB, c *Compiled, o *Op) (fd *Finding) {
 					return
 				}
 				s.label("illegal query call: " + st.K)
+			case "rel!bad":
+				// Query.Relation for a component the current entity does not carry as its relation (a
+				// plain component, or a relation component it lacks): documented to panic; the query stays
+				// where it is
+				if pos < 0 || pos >= len(ref) {
+					continue
+				}
+				cur := s.M.Ents[b.Ord[ref[pos]]].EntState
+				cands := []int{}
+				for c := 0; c < s.M.U.N(); c++ {
+					if !(s.M.U.IsRel(c) && cur.Has(c)) {
+						cands = append(cands, c)
+					}
+				}
+				if len(cands) == 0 {
+					continue
+				}
+				c := cands[st.N%len(cands)]
+				if p := Call(func() { q.Relation(b.IDs[c]) }); p == nil {
+					fd = finding(CatIllegal, "%s: %s: Query.Relation(component %d) did not panic although the entity at the query's position does not carry it as a relation", b.Name, what, c)
+					return
+				}
+				if !b.W.IsLocked() {
+					fd = finding(CatIllegal, "%s: %s: the rejected Query.Relation call released the query's lock", b.Name, what)
+					return
+				}
+				if fd = s.checkPosition(b, &q, ref[pos], what+" after a rejected Query.Relation"); fd != nil {
+					return
+				}
+				s.label("illegal query call: rel!bad")
 			}
 		}
 		if open {
